@@ -212,6 +212,17 @@ theorem ctl_no_attempt_after_fatal (pb : Nat) (acts : List Act) :
   let n := crun_noatt acts { pb := pb } (cinit_inv pb) (cinit_noatt pb)
   ⟨n.quiet, fun hf => ⟨n.empty hf, h.fat hf⟩⟩
 
+/-- **ctl_history**: the controller-side streams over TIME.  In every interleaving, from every state, the bytes the socket
+has accepted and the concatenation of everything queued only ever grow at the END: after any continuation `b` of any
+history `a` both extend what they were (`Ext x y` = `∃ t, y = x ++ t`).  With `ctl_stream` at every moment: a byte the
+socket has taken is never taken again, retracted or overtaken by a later message. -/
+theorem ctl_history (pb : Nat) (a b : List Act) :
+    Ext (crun { pb := pb } a).accepted (crun { pb := pb } (a ++ b)).accepted ∧
+    Ext (crun { pb := pb } a).queued (crun { pb := pb } (a ++ b)).queued := by
+  rw [crun_append]; exact crun_hist b _
+example : (crun { pb := 2 } ([.coopCheck [1,2,3], .coopGo (.accept 1), .coopEnq] ++ [.senderBegin, .senderSend (.accept 2)])).accepted
+    = (crun { pb := 2 } [.coopCheck [1,2,3], .coopGo (.accept 1), .coopEnq]).accepted ++ [2,3] := by decide
+
 /-- **ctl_env_disc**: another connection being disconnected or closed (`Connection.disconnect` does not touch the deferred
 sender) changes nothing this connection can see: the action is always enabled and leaves the state as it is. -/
 theorem ctl_env_disc (s : Ctl) : cstep s .envDisc = some s := rfl
